@@ -27,6 +27,22 @@ package fingerprint
 //@   modifies heap, fs_exists, fs_ver
 //@   preserves $RUNDATA
 
+// A status command is run as it is written, in the directory of the task, and judged by its exit status ALONE: what
+// it prints goes nowhere (no writer is attached that could fail, fill up or block), and "up to date" is answered only
+// when every command of the list returned without an error
+//@ ghost var stFailed bool scratch
+//@ func (*StatusChecker).IsUpToDate
+//@   blocks
+//@   modifies heap
+//@   preserves $RUNDATA
+//@   init stFailed := false
+//@   site execext.RunCommand#0 requires arg1.Command == s && arg1.Dir == t.Dir                                [C05,C12]
+//@   site execext.RunCommand#0 requires arg1.Stdout == nil && arg1.Stderr == nil && arg1.Stdin == nil         [C05,C12,C17]
+//@   site execext.RunCommand#1 ghost stFailed := result != nil
+//@   loop 1 invariant !stFailed                                                                              [C05]
+//@   ensures result.0 ==> !stFailed                                                                          [C05]
+//@   ensures result.1 == nil                                                                                 [C05]
+
 //@ func WithMethod
 //@   pure allocates
 //@ func WithDry
